@@ -198,6 +198,18 @@ def GForm.asWritten : GForm := ⟨false, ceG, ceG, ceG, ceG⟩
 /-- the repaired source: maximum first, `checkEqualGeneral` at all four sites -/
 def GForm.repaired : GForm := ⟨true, ceG, ceG, ceG, ceG⟩
 
+/-! ### deciders evaluated by the driver on every greedy-type line (`Props/C09k`: they decide the hypotheses of the theorems) -/
+
+/-- `checkEqualGeneral` is transitive on the row (with reflexivity and symmetry: an equivalence) — "clustered" rows: exact ties,
+    ties inside the library tolerance, everything else separated.  The hypothesis of `greedy_classes` (`clsB_iff`). -/
+def clsB (q : Nat → Rat) (n : Nat) : Bool :=
+  (List.range n).all (fun i => (List.range n).all (fun j => (List.range n).all (fun k =>
+    !(ceG (q i) (q j) && ceG (q j) (q k)) || ceG (q i) (q k))))
+
+/-- the tie relation is the same before and after the shift -/
+def sameRelB (q : Nat → Rat) (c : Rat) (n : Nat) : Bool :=
+  (List.range n).all (fun i => (List.range n).all (fun j => ceG (q i) (q j) == ceG (q i + c) (q j + c)))
+
 /-! ## QSoftmaxPolicyWrapper — `e a` is the implementation's `exp(q a / T)` when finite, `inf a` says it is `+inf` -/
 
 def smProb (e : Nat → Rat) (inf : Nat → Bool) (n a : Nat) : Rat :=
